@@ -1,6 +1,6 @@
 (* C04 — every registered system is in the executed layout exactly once (plan level).
    Statements only; proofs are in PlanProps.v. *)
-From Shred Require Import Base SrcParams Plan PlanObs PlanInv PlanLoc PlanBuild PlanProps PlanLemmas Exec ExecProps ExecPlan.
+From Shred Require Import Base SrcParams Plan PlanObs PlanInv PlanLoc PlanBuild PlanProps PlanLemmas Exec ExecProps ExecPlan BatchProps OracleProps.
 From Coq Require Import Permutation.
 
 (* For registration programs of ANY length: the flattened executed layout (the boxed
@@ -50,6 +50,16 @@ Proof. exact run_k_times. Qed.
 Print Assumptions C04_k_dispatches_k_times.
 
 (* non-vacuity: a program with a joined group, a barrier and a dependency satisfies the hypotheses *)
+(* ---- the oracle `exec_perm` evaluated on the REAL executed layout decides exactly this ---- *)
+Theorem C04_oracle_exec_perm_meaning :
+  forall rs l, o_exec_perm rs l = true <-> Permutation (sys_tags rs) (flat l).
+Proof. exact o_exec_perm_meaning. Qed.
+Print Assumptions C04_oracle_exec_perm_meaning.
+Theorem C04_oracle_exec_perm_holds_on_model_layouts :
+  forall rs b, plan rs = Ok b -> Forall reg_time_ok1 rs -> o_exec_perm rs (layout_tags b) = true.
+Proof. exact o_exec_perm_on_model. Qed.
+Print Assumptions C04_oracle_exec_perm_holds_on_model_layouts.
+
 Example C04_example :
   let rs := [RSys 1 [97] [] [8] [] 3%Z; RSys 2 [98] [] [] [9] 1%Z; RSys 3 [] [] [9] [] 2%Z; RBarrier;
              RSys 4 [99] [[97]] [] [8] 5%Z] in
